@@ -24,6 +24,7 @@ Fact(e)         == [k |-> "fact", e |-> e]
 If(c, t, e)     == [k |-> "if", c |-> c, t |-> t, e |-> e]
 Lam(ps, b)      == [k |-> "lam", ps |-> ps, b |-> b]      \* ps: <<[n, m]>> m in req / opt / rest
 Do(ss, r)       == [k |-> "do", ss |-> ss, r |-> r]
+DoS(ss, r)      == [k |-> "do", ss |-> ss, r |-> r, semi |-> TRUE]    \* written with `;` between the statements, on one line
 Asg(n, e)       == [k |-> "asg", n |-> n, e |-> e]
 ListE(xs)       == [k |-> "list", xs |-> xs]
 RecE(es)        == [k |-> "rec", es |-> es]               \* entries: [ek |-> static / dyn / short / spread, ...]
@@ -100,8 +101,10 @@ Text(t, full) ==
     [] t.k = "if"    -> "if " \o W(t, t.c, "item", full) \o " then " \o W(t, t.t, "item", full)
                         \o " else " \o W(t, t.e, "item", full)
     [] t.k = "lam"   -> "(" \o JoinWith([i \in 1..Len(t.ps) |-> ParamText(t.ps[i])], ", ") \o ") => " \o W(t, t.b, "body", full)
-    [] t.k = "do"    -> "do {\n" \o JoinWith([i \in 1..Len(t.ss) |-> "  " \o Text(t.ss[i], full) \o "\n"], "")
-                        \o "  return " \o Text(t.r, full) \o "\n}"
+    [] t.k = "do"    -> IF "semi" \in DOMAIN t
+                        THEN "do { " \o JoinWith([i \in 1..Len(t.ss) |-> Text(t.ss[i], full) \o "; "], "") \o "return " \o Text(t.r, full) \o " }"
+                        ELSE "do {\n" \o JoinWith([i \in 1..Len(t.ss) |-> "  " \o Text(t.ss[i], full) \o "\n"], "")
+                             \o "  return " \o Text(t.r, full) \o "\n}"
     [] t.k = "asg"   -> t.n \o " = " \o Text(t.e, full)
     [] t.k = "list"  -> "[" \o JoinWith([i \in 1..Len(t.xs) |-> W(t, t.xs[i], "item", full)], ", ") \o "]"
     [] t.k = "rec"   -> "{" \o JoinWith([i \in 1..Len(t.es) |-> EntryText(t, t.es[i], full)], ", ") \o "}"
@@ -121,15 +124,26 @@ Shapes(X) ==
   \cup {If(X, b, c), If(a, X, c), If(a, b, X)}
   \cup {Lam(<<P("x", "req")>>, X), Lam(<<P("x", "req"), P("y", "opt"), P("z", "rest")>>, X)}
   \cup {Do(<<Asg("t", X)>>, Id("t")), Do(<<>>, X), Do(<<X>>, a)}
+  \cup {DoS(<<Asg("t", b), X>>, Id("t")), DoS(<<X, Asg("t", b)>>, Id("t"))}     \* a second statement may begin with any token, e.g. a minus sign
   \cup {Asg("z", X)}
   \cup {ListE(<<X>>), ListE(<<a, X>>), ListE(<<Spread(X)>>)}
   \cup {RecE(<<EStatic("k", X)>>), RecE(<<EDyn(X, a)>>), RecE(<<EStatic("k", a), ESpread(X)>>)}
-Leaves == {a, Num(1), StrLit("s", FALSE), StrLit("say \"hi\"", TRUE), StrLit("it's", FALSE), StrLit("a\\b", FALSE),
+Leaves == {a, Num(1), StrLit("s", FALSE), StrLit("two\nlines", FALSE), StrLit("cr\r\nlf  x", FALSE), StrLit("say \"hi\"", TRUE), StrLit("it's", FALSE), StrLit("a\\b", FALSE),
            BoolL(TRUE), NullL, InRef("k"), ListE(<<>>), RecE(<<>>), RecE(<<EShort("a")>>)}
 T1 == UNION {Shapes(lf) : lf \in {a}}
 T1all == UNION {Shapes(lf) : lf \in Leaves}
 T2 == UNION {Shapes(t) : t \in T1}
 T3 == UNION {Shapes(t) : t \in T2}
+
+\* Strings that span lines (a literal may contain line breaks, also CR LF): wherever the formatter lays an enclosing
+\* construct out over several lines, the bytes inside the literal must stay as they are.  A small set of enclosing shapes,
+\* nested up to three deep around such a literal.
+MLString == StrLit("cr\r\nlf  x\n  indented", FALSE)
+MLShapes(X) == {Bin("via", l, Lam(<<P("x", "req")>>, X)), Bin("add", X, b), Lam(<<P("x", "req")>>, X), ListE(<<a, X>>), RecE(<<EStatic("k", X)>>),
+                Do(<<Asg("t", X)>>, Id("t")), If(a, X, c), Call(f, <<X, b>>), Asg("z", X)}
+ML1 == MLShapes(MLString)
+ML2 == UNION {MLShapes(t) : t \in ML1}
+ML3 == UNION {MLShapes(t) : t \in ML2}
 
 \* Spines: an open-ended construct (conditional, lambda, assignment - each swallows everything to its right) at the END of a
 \* chain of n binary / unary operators hanging on their right operands, the whole chain standing where something follows it:
